@@ -12,10 +12,18 @@ def gen_case(rng, flavour):
     kinds = [rng.choice(KINDS) for _ in range(nh)]
     if flavour == "timers":
         kinds = [rng.choice("ttti") for _ in range(nh)]
+    if flavour == "huge":
+        kinds = [rng.choice("tttpa") for _ in range(nh)]
     t0 = rng.choice([0, 1000, 123456])
     metrics = rng.choice([0, 0, 1])
 
+    HUGE = [2147483646, 2147483647, 2147483648, 4294967295, 4294967296, 4294967297, 3 * (1 << 31) + 5]
+    huge_p = 0.5 if flavour == "huge" else 0.02
+
     def tv():
+        # distances beyond INT_MAX ms exercise the clamp in uv__next_timeout (seeded change C03-4)
+        if rng.random() < huge_p:
+            return rng.choice(HUGE)
         return rng.choice([0, 0, 1, 2, 3, 5, 10, 10, 25, 100])
 
     def op(top):
@@ -80,6 +88,9 @@ def merge_polls(line):
     are one blocking decision: merge them (sum; -1 absorbs; flags of the first)."""
     out = []
     for tok in line.split():
+        if tok[0] == "w" and not -1 <= int(tok[1:].split(":")[0]) <= 2147483647:
+            out.append("!range:" + tok)    # a single epoll_pwait timeout outside [-1, INT_MAX]; never merged
+            continue
         if tok[0] == "w" and out and out[-1][0] == "w":
             a, fl = out[-1][1:].split(":")
             b = tok[1:].split(":")[0]
